@@ -139,6 +139,38 @@ class ScriptGen:
     def flagset(self, mask):
         return set(self.flagobj[i] for i in range(4) if mask >> i & 1)
 
+    @staticmethod
+    def fields_wf(t):
+        """Spec.Sighash.FieldsWF on the plain form of a transaction (fields in wire range)"""
+        return (-2 ** 31 <= t['ver'] < 2 ** 31 and 0 <= t['lock'] < 2 ** 32 and
+                all(len(h) == 32 and 0 <= n < 2 ** 32 and 0 <= q < 2 ** 32 for (h, n, _s, q) in t['vin']) and
+                all(-2 ** 63 <= v < 2 ** 63 for (v, _s) in t['vout']))
+
+    def build_tx(self, t, mutable):
+        """the transaction object for the plain form `t`, also when fields are OUTSIDE the wire range: the immutable
+        constructors do not validate nVersion / nValue (anything else out of range cannot be constructed: ValueError
+        here); a mutable object is constructed in range and the field values are then ASSIGNED (attribute assignment
+        is unchecked), which is how such objects come about."""
+        if not mutable or self.fields_wf(t):
+            return txfmt.to_tx(t, mutable=mutable)
+
+        def u32(v):
+            return v if 0 <= v <= 0xffffffff else 0
+        t0 = dict(t, lock=u32(t['lock']),
+                  vin=[(h if len(h) == 32 else bytes(32), u32(n), s_, u32(q)) for (h, n, s_, q) in t['vin']])
+        tx = txfmt.to_tx(t0, mutable=True)
+        tx.nLockTime = t['lock']
+        for i, (h, n, _s, q) in enumerate(t['vin']):
+            tx.vin[i].nSequence = q
+            tx.vin[i].prevout.n = n
+            tx.vin[i].prevout.hash = h
+        return tx
+
+    @staticmethod
+    def snapshot(txo):
+        """the field values of a transaction object (never its serialisation, which may itself raise)"""
+        return repr(txfmt.from_tx(txo))
+
     def tx_obj(self, ti, mutable=False):
         k = (ti, mutable)
         if k not in self._txcache:
